@@ -209,7 +209,7 @@ func TestEnum(t *testing.T) {
 		func() *Node { return ro(flaky(L(1), "get", 1)) },
 		func() *Node { return ro(flaky(flaky(L(1), "get", 2), "has", 1)) },
 	}
-	fh := seqs([]Op{G(0), G(3), H(0), H(3)}, 3)
+	fh := seqs([]Op{G(0), G(3), H(0), H(3)}, hx.Pick(3, 4))
 	for m := 2; m <= 3; m++ {
 		idx := make([]int, m)
 		for {
@@ -238,7 +238,7 @@ func TestEnum(t *testing.T) {
 			}
 		}
 	}
-	hx.Exhaustive("failover groups of 2..3 members x member state {healthy, down, invalid object, fail at 1st get, fail at 2nd get + 1st has} x all get/has histories of length <=3 over a held and a missing ID")
+	hx.Exhaustive("failover groups of 2..3 members x member state {healthy, down, invalid object, fail at 1st get, fail at 2nd get + 1st has} x all get/has histories of length <=" + fmt.Sprint(hx.Pick(3, 4)) + " over a held and a missing ID")
 
 	// (b) routers of 2 and 3 members
 	rstates := []func() *Node{
